@@ -259,7 +259,7 @@ func VerifC07_DowntimeSlash() {
 	e.K.SetParams(e.Ctx, p)
 	e.K.SetValidatorSigningInfo(e.Ctx, e.Addrs[0], types.ValidatorSigningInfo{Address: e.Addrs[0], StartHeight: 0, JailedUntil: time.Unix(0, 0)})
 	e.Ctx = e.Ctx.WithBlockHeight(50)
-	power := zz.Int64("reported_power", 0, 1<<40)
+	power := zz.Int64("reported_power", 0, 1<<60)
 	pre := e.snap()
 	e.K.handleValidatorSignature(e.Ctx, []byte(e.Addrs[0]), power, false)
 	post := e.snap()
